@@ -37,9 +37,9 @@ PROPS = {
     'C06': {
         'e3_always': ['choose_path'],
         'e3': ['choose_path'],
-        'units': ['clvmleaves'],
-        'decided': 'the leaves the stepping evaluator re-implements itself: path lookup (choose_path) equals consensus traverse_path incl. path 0; program atoms are read as unsigned paths (path_from_u8, flatten_signed_int, lemma path_of_canonical_atom); truthiness (truthy) equals the consensus nil test in the current integer mode; atom_value; generate_argument_refs produces the paths 3*2^(k+j)-1 which select the j-th argument (lemma arg_ref_selects); translate_head: a number in operator position is handed on as the opcode it is, a name as what the operator table maps it to (finding F24)',
-        'not_covered': ['run_step / run as a whole (bisimulation with run_program)', 'apply_op delegation', 'the operator table itself (prim_map contents, see C20)', 'eval_args', 'combine', 'that apply_op passes start = 5 and the environment (nil . args)', 'that run_step calls the verified leaves (call sites are unverified)'],
+        'units': ['clvmleaves', 'stepper'],
+        'decided': 'ONE STEP PRESERVES THE VALUE (unit stepper): a machine state (RunStep with its parents) denotes a final value under the shared consensus evaluation spec (eval / op_apply with the consensus axioms for path lookup, q, a, i, c, f, r and their arities, strict operands, nil-terminated operand lists); run_step returns a state denoting the same value, and an error only when that value is a failure -- for every state whose operator is given as a number, in the current integer mode, without a debugger override; proved through combine (a value handed to a waiting state), eval_args (the Op state yields the operator applied to the values of the operand expressions; an operand list not ending in nil is a failure), SExp::proper_list, with_loc; the leaves under it: path lookup (choose_path) equals consensus traverse_path incl. path 0; program atoms are read as unsigned paths (path_from_u8, flatten_signed_int, lemma path_of_canonical_atom); truthiness (truthy) equals the consensus nil test in the current integer mode; atom_value; generate_argument_refs produces the paths 3*2^(k+j)-1 which select the j-th argument (lemma arg_ref_selects); translate_head: a number in operator position is handed on as the opcode it is, a name as what the operator table maps it to (finding F24)',
+        'not_covered': ['the loop of run around run_step (termination is outside the comparison; that iterating a value-preserving step ends in that value is the definition of final_of on Done)', 'apply_op delegation (ASSUMED contract: returns what the operator computes on the operand values; generate_argument_refs under it is proved)', 'operators given as NAMES (prim_map contents, see C20) and the ((op) . operands) form (evaluation spec does not model it; stand-in E3 programs)', 'legacy integer mode (truthy differs from the consensus nil test there: finding F23)', 'the consensus axioms themselves (transcribed from clvmr)'],
     },
     'C07': {
         'e3_always': ['convert'],
@@ -134,10 +134,10 @@ PROPS = {
         'not_covered': ['unbound-identifier detection on every desugaring route, inline-recursion guard (visited_inlines in replace_inline_body), toposort deadlock / duplicate handling: bounded stand-in only (E3: 8 ill-scoped programs with repaired twins); toposort and the inliner are generic / closure / HashSet code outside Verus, and a Kani harness over HashSet does not finish here', 'termination of the compiler on all ill-scoped inputs'],
     },
     'C12': {
-        'units': ['cldb', 'clvmleaves'],
+        'units': ['cldb', 'clvmleaves', 'stepper'],
         'e3_always': ['cldb'],
         'e3': ['cldb', 'choose_path'],
-        'decided': 'what the debugger presents is the value it computed: improve_presentation and humanize (applied to every shown value and to the final result) return the same CLVM value, only spelled differently (R6 for the pointer-sharing shortcut); plus the stepping-evaluator leaves of C06 that every row is produced from (path lookup, truthiness, atom_value)',
+        'decided': 'what the debugger presents is the value it computed: improve_presentation and humanize (applied to every shown value and to the final result) return the same CLVM value, only spelled differently (R6 for the pointer-sharing shortcut); plus, for the machine the debugger steps (C06, unit stepper): every run_step transition preserves the value the machine state denotes under the consensus evaluation spec, so the final value the debugger reports is the consensus result (operators given as numbers, current integer mode); and the stepping-evaluator leaves every row is produced from (path lookup, truthiness, atom_value)',
         'not_covered': ['CldbRun::step row / ended / final bookkeeping and that the run ends with the consensus result: bounded stand-in only (E3: enumerated programs x 3 environments: final value, failure iff consensus fails, consecutive rows, and every (operator, arguments, value) row re-evaluated with the consensus evaluator; open finding F19: rows of the primitive if)', 'cldb_hierarchy', 'hex-supplied programs (hex_to_modern_sexp_inner)'],
     },
 }
